@@ -429,6 +429,47 @@ pub fn check_random(tape: &[u16], rc: &mut RCase) -> Result<(), Failure> {
     judge(&store, &q, rc)
 }
 
+/// A token that many UTxOs elsewhere hold: more holders at other addresses than the selection window has slots,
+/// a handful of UTxOs at the queried address. The candidates of a query with `from` are the UTxOs at that address
+/// only, so the crowd elsewhere must not keep them from being looked at.
+pub fn check_crowded(tape: &[u16], rc: &mut RCase) -> Result<(), Failure> {
+    let mut t = Tape::new(tape);
+    let crowd = 51 + t.pick(90);
+    let own = 1 + t.pick(5);
+    let home = t.pick(3);
+    let mut store: Vec<U> = vec![];
+    for id in 0..crowd {
+        let addr = (home + 1 + t.pick(2)) % 3;
+        store.push(U { id, addr, lovelace: 1_000_000 + t.pick(5_000_000) as i128, t: 1 + t.pick(1000) as i128, u: if t.chance(1, 4) { 1 + t.pick(50) as i128 } else { 0 } });
+    }
+    for k in 0..own {
+        let with_token = k == 0 || t.chance(1, 3);
+        store.push(U {
+            id: crowd + k,
+            addr: home,
+            lovelace: 1_000_000 + t.pick(4_000_000) as i128,
+            t: if with_token { 1 + t.pick(20) as i128 } else { 0 },
+            u: if t.chance(1, 5) { 1 + t.pick(20) as i128 } else { 0 },
+        });
+    }
+    // positions in the store must not matter
+    let shift = t.pick(store.len());
+    store.rotate_left(shift);
+    let mine: Vec<&U> = store.iter().filter(|u| u.addr == home).collect();
+    let sum = |f: &dyn Fn(&U) -> i128| mine.iter().map(|u| f(u)).sum::<i128>();
+    let (l, tt, uu) = (sum(&|u| u.lovelace), sum(&|u| u.t), sum(&|u| u.u));
+    let part = |x: i128, t: &mut Tape| match t.pick(4) {
+        0 => x,
+        1 => x - x / 3,
+        2 => 1.min(x),
+        _ => x + 1,
+    };
+    let min = Some((part(l, &mut t), part(tt, &mut t).max(1), if t.chance(1, 4) { part(uu, &mut t) } else { 0 }));
+    let q = Q { address: Some(home), refs: RefSpec::None, min, many: t.chance(3, 4), collateral: false };
+    rc.label("token_held_by_more_utxos_elsewhere_than_the_window");
+    judge(&store, &q, rc)
+}
+
 /// Several blocks in one transaction: a collateral block and one or two input blocks whose names
 /// sort before and after "collateral" (blocks are resolved in name order). Completeness is
 /// asserted only where it cannot depend on the selector's choices: every input block has a
@@ -592,6 +633,7 @@ pub fn run(tier: Tier, seed: u64) -> Report {
     });
     r.explore("random_stores", tier.pick(60_000, 2_000_000), 400, &|t, rc| check_random(t, rc));
     r.explore("collateral_and_inputs_in_one_tx", tier.pick(60_000, 1_000_000), 120, &|t, rc| check_multi_block(t, rc));
+    r.explore("token_crowded_elsewhere", tier.pick(5_000, 200_000), 700, &|t, rc| check_crowded(t, rc));
     r
 }
 
@@ -602,6 +644,8 @@ pub fn replay(phase: &str, tape: &[u16], seed: u64) -> Report {
         r.explore_list(phase, &[tape.to_vec()], &|t, rc| check_random(t, rc));
     } else if phase == "collateral_and_inputs_in_one_tx" {
         r.explore_list(phase, &[tape.to_vec()], &|t, rc| check_multi_block(t, rc));
+    } else if phase == "token_crowded_elsewhere" {
+        r.explore_list(phase, &[tape.to_vec()], &|t, rc| check_crowded(t, rc));
     } else {
         let i = ((tape[0] as u64) << 48) | ((tape[1] as u64) << 32) | ((tape[2] as u64) << 16) | tape[3] as u64;
         let size: usize = phase.rsplit('_').next().and_then(|s| s.parse().ok()).unwrap_or(1);
